@@ -16,6 +16,7 @@ func FuzzVerifC15NumaHints(f *testing.F) {
 		f.Add([]byte(s), uint8(4), uint8(3))
 	}
 	f.Fuzz(func(t *testing.T, cpuset []byte, cards, occupied uint8) {
+		defer g.FuzzGuard(t, "FuzzVerifC15NumaHints", cpuset, cards, occupied)()
 		c := g.FuzzSink{T: t}
 		v := g.Bytes(cpuset)
 		vfC15RunNuma(c, vfC15NumaScenario{Kind: "fuzz", CPUSet: &v})
